@@ -3,7 +3,7 @@
    string stay the extracted Coq datatypes. *)
 Require Extraction.
 Require Import ExtrOcamlBasic.
-From HclV Require Import Base Expr Disasm Machine Graph Yo Build MachineSpec SchedSpec Generated Region Cli CliArgs Lexer Parser SpanParser Tool Diag SpanBuild ParseDiag FullDiag ToolErr.
+From HclV Require Import Base Expr Disasm Machine Graph Yo Build MachineSpec SchedSpec Generated Region Cli CliArgs Lexer Parser SpanParser Tool Diag SpanBuild ParseDiag FullDiag ToolErr ParseLoc.
 Extraction Language OCaml.
 Extraction "model.ml"
   Disasm.disassemble Disasm.trace_line
@@ -12,7 +12,7 @@ Extraction "model.ml"
   Machine.dump_y86 Machine.mem_read Machine.mem_write Machine.dump_memory Machine.mem_put
   Machine.default_options Machine.set_quiet Machine.set_test Machine.set_debug Machine.set_no_group
   Machine.set_trace_assignments Machine.set_timeout Machine.set_nth Base.lookup Base.upd Base.ekind_name
-  Tool.tool_main_as Tool.files_of ToolErr.tool_full Diag.render_all Diag.hook_spans FullDiag.front_errors Diag.str_bytes SpanBuild.front_sp ParseDiag.parse_text_diag ParseDiag.all_diags Generated.gen_features Generated.gen_preamble
+  Tool.tool_main_as Tool.files_of ToolErr.tool_full Diag.render_all Diag.hook_spans ParseLoc.first_error_span_text FullDiag.front_errors Diag.str_bytes SpanBuild.front_sp ParseDiag.parse_text_diag ParseDiag.all_diags Generated.gen_features Generated.gen_preamble
   Parser.parse_text SpanParser.parse_text_sp Generated.gen_tiers Lexer.lex Lexer.test_uclass Cli.main_model CliArgs.main_in_world CliArgs.parse_argv Region.new_from_data Region.show_region Yo.load_from_y86 Build.build_program Build.ascii_lower Build.ascii_upper Build.test_lower Build.test_upper Generated.gen_fixed
   SchedSpec.valid_schedule SchedSpec.known0
   Graph.toposortN Graph.is_linear_extensionN Graph.is_cycleN.
